@@ -2,5 +2,7 @@ SPECIFICATION MCSpec
 CONSTANTS
   N = 2
   MinEmit = 1
+  Mode = "ops"
+  Big = FALSE
 INVARIANT Emit
 CHECK_DEADLOCK FALSE
